@@ -108,7 +108,8 @@ KINDS_A = [
     "fifo_random", "fifo_grid", "hb_stopping", "hb_promotion", "hb_pasha", "hb_cost_promotion",
     "hb_rush_stopping", "hb_rush_promotion", "sync_hb", "dehb", "pbt", "rea", "morea",
 ]
-VT_SCEN = ["vt_gp_fifo", "vt_mobster_promotion", "vt_mobster_stopping", "vt_hypertune", "vt_modelfree"]
+VT_SCEN = ["vt_gp_fifo", "vt_mobster_promotion", "vt_mobster_stopping", "vt_hypertune", "vt_modelfree", "vt_hashmatrix"]
+BATCH_SCEN = ("vt_modelfree", "vt_hashmatrix")
 SIM_SCHED = ["fifo_random", "hb", "sync_hb", "dehb", "pbt", "rea", "gp_fifo", "mobster", "hypertune", "fifo_grid"]
 HASHSEEDS = ["0", "1", "random"]
 
@@ -149,7 +150,7 @@ def _b_plan(tier):
     """Scenario list of a tier (engine B)."""
     if tier == "quick":
         return (["vt_gp_fifo", "vt_mobster_promotion", "vt_hypertune", "vt_modelfree", "vt_mobster_stopping",
-                 "vt_gp_fifo", "vt_modelfree"]
+                 "vt_gp_fifo", "vt_modelfree", "vt_hashmatrix", "vt_hashmatrix"]
                 + ["sim_" + s for s in SIM_SCHED[:9]])
     out = []
     for r in range(11):
@@ -211,6 +212,13 @@ def floors(tier):
         f["domain_kind_in_twin_spaces:" + dk] = 15 * k
         f["domain_kind_in_child_spaces:" + dk] = 2 if tier == "quick" else 20
     f["B:cases_with_quantized_domain"] = 8 if tier == "quick" else 80
+    kb = 1 if tier == "quick" else 5
+    for kind in HASH_KINDS:
+        f["fresh_process_hash_twins:" + kind] = 6 * kb
+        f["fresh_process_hash_twins_with_duplicated_string_categories:" + kind] = 3 * kb
+    f["spaces_with_duplicated_categories"] = 60 * kb
+    f["fresh_process_grid_twins_with_duplicated_string_categories:shuffle_true"] = 3 * kb
+    f["fresh_process_grid_twins_with_duplicated_string_categories:shuffle_false"] = 3 * kb
     kn = 1 if tier == "quick" else 10
     for lb, m in (("seed", 60), ("mode", 30), ("space", 30), ("max_t", 30), ("brackets", 15), ("rung_levels", 15)):
         f["neighbour_differs_in:" + lb] = m * kn
@@ -297,9 +305,16 @@ DOMAIN_KINDS = [
     "uniform", "loguniform", "reverseloguniform", "quniform", "qloguniform", "randint", "lograndint", "qrandint",
     "qlograndint", "choice", "ordinal_equal", "ordinal_nn", "logordinal", "finrange", "finrange_int", "logfinrange",
     "logfinrange_int",
+    # unusual but legal categoricals: duplicated values, a single value, float / bool values
+    "choice_dup_str", "choice_dup_int", "choice_single", "ordinal_equal_dup", "choice_float", "choice_bool",
 ]
+UNUSUAL_KINDS = ["choice_dup_str", "choice_dup_int", "choice_single", "ordinal_equal_dup", "choice_float", "choice_bool"]
+DUP_KINDS = ("choice_dup_str", "choice_dup_int", "ordinal_equal_dup")
 FINITE_KINDS = ["randint", "qrandint", "choice", "ordinal_equal", "ordinal_nn", "logordinal", "finrange",
-                "finrange_int", "logfinrange", "logfinrange_int"]
+                "finrange_int", "logfinrange", "logfinrange_int"] + UNUSUAL_KINDS
+CATEGORICAL_STYLE = ["choice", "choice_dup_str", "choice_dup_str", "choice_dup_int", "choice_single", "ordinal_equal",
+                     "ordinal_equal_dup", "choice_float", "choice_bool", "ordinal_nn", "logordinal", "finrange",
+                     "randint", "uniform"]
 TRULY_INFINITE = ("uniform", "loguniform", "reverseloguniform")
 QUANTIZED_KINDS = ("quniform", "qloguniform", "qrandint", "qlograndint")
 
@@ -308,7 +323,18 @@ def desc_kind(d):
     """Counter name of one hyperparameter description."""
     k = d[0]
     if k == "ordinal":
-        return "ordinal_" + d[2]
+        return "ordinal_equal_dup" if len(set(d[1])) < len(d[1]) else "ordinal_" + d[2]
+    if k == "choice":
+        cats = d[1]
+        if len(cats) == 1:
+            return "choice_single"
+        if len(set(cats)) < len(cats):
+            return "choice_dup_str" if isinstance(cats[0], str) else "choice_dup_int"
+        if isinstance(cats[0], bool):
+            return "choice_bool"
+        if isinstance(cats[0], float):
+            return "choice_float"
+        return "choice"
     if k in ("finrange", "logfinrange") and len(d) > 4 and d[4]:
         return k + "_int"
     return k
@@ -340,6 +366,19 @@ def domain_desc(rng, kind, small=False):
         return ["qlograndint"] + rng.choice([[4, 64, 4], [2, 32, 2], [1, 100, 1], [8, 512, 8]] if not small else [[2, 8, 2], [4, 16, 4], [1, 5, 1]])
     if kind == "choice":
         return ["choice", [f"c{j}" for j in range(rng.randint(2, 4))]]
+    if kind in ("choice_dup_str", "choice_dup_int", "ordinal_equal_dup"):
+        m = rng.randint(2, 4)
+        as_str = kind == "choice_dup_str" or (kind == "ordinal_equal_dup" and rng.random() < 0.6)
+        base = [f"v{j}" for j in range(m)] if as_str else rng.sample(range(1, 30), m)
+        cats = base + [rng.choice(base) for _ in range(rng.randint(1, 2))]  # some value listed more than once
+        rng.shuffle(cats)
+        return ["choice", cats] if kind != "ordinal_equal_dup" else ["ordinal", cats, "equal"]
+    if kind == "choice_single":
+        return ["choice", [rng.choice(["only", 7])]]
+    if kind == "choice_float":
+        return ["choice", rng.sample([0.25, 0.5, 1.5, 2.0, 8.0], rng.randint(2, 3))]
+    if kind == "choice_bool":
+        return ["choice", rng.choice([[True, False], [False, True]])]
     if kind in ("ordinal_equal", "ordinal_nn"):
         cats = sorted(rng.sample(range(1, 40), rng.randint(2, 4)))
         if kind == "ordinal_nn" and rng.random() < 0.3:
@@ -358,15 +397,19 @@ def domain_desc(rng, kind, small=False):
     raise ValueError(kind)
 
 
-def full_space(rng, with_const=True, finite=False, ensure_infinite=False, force_kind=None, kinds=None):
+def full_space(rng, with_const=True, finite=False, ensure_infinite=False, force_kind=None, kinds=None, style=None):
     """A small mixed configuration space drawn from ALL domain kinds (``gen.small_space`` knows 7 of them)."""
+    if style == "categorical":  # mostly (string-valued) categoricals: what hash randomisation can reorder
+        kinds = [k for k in CATEGORICAL_STYLE if not finite or k in FINITE_KINDS]
     kinds = list(kinds or (FINITE_KINDS if finite else DOMAIN_KINDS))
     n = rng.randint(2, 4)
     desc = {}
     for i in range(n):
         desc[f"h{i}"] = domain_desc(rng, rng.choice(kinds), small=finite)
-    if force_kind is not None and (not finite or force_kind in FINITE_KINDS):
-        desc["h1"] = domain_desc(rng, force_kind, small=finite)
+    forced = [force_kind] if isinstance(force_kind, str) else list(force_kind or [])
+    for i, fk in enumerate(forced):
+        if not finite or fk in FINITE_KINDS:
+            desc[f"h{i + 1}"] = domain_desc(rng, fk, small=finite)
     if ensure_infinite and not any(desc_kind(d) in TRULY_INFINITE for d in desc.values()):
         desc["h0"] = ["uniform", 0.0, 1.0]
     if with_const and rng.random() < 0.5:
@@ -412,7 +455,7 @@ def column_values(d):
     """All values a table column of this (finite) domain can take when drawn through Domain.sample / decoded."""
     k = d[0]
     if k in ("choice", "ordinal", "logordinal"):
-        return list(d[1])
+        return list(dict.fromkeys(d[1]))
     if k in ("randint", "lograndint", "qrandint", "qlograndint"):
         # quantized integers: samples are multiples of q, but the mid-point rule for the first suggestion is not
         return list(range(d[1], d[2] + 1))
@@ -451,8 +494,8 @@ def expand_a(spec):
     p["checkpointing"] = rng.random() < 0.6
     p["use_mra"] = False
     p["mode"] = rng.choice(["min", "max"])
-    fk = spec.get("force_kind")
-    p["space"] = full_space(rng, ensure_infinite=True, force_kind=fk)
+    fk, style = spec.get("force_kind"), spec.get("space_style")
+    p["space"] = full_space(rng, ensure_infinite=True, force_kind=fk, style=style)
     if kind.startswith("fifo") or kind in ("rea", "morea"):
         p["max_t"] = rng.randint(1, 4)
         p["max_trials"] = rng.randint(20, 80)
@@ -460,7 +503,7 @@ def expand_a(spec):
         if kind == "fifo_random":
             p["variant"] = rng.choice(["plain", "plain", "restrict", "allow_duplicates"])
         elif kind == "fifo_grid":
-            p["space"] = full_space(rng, finite=rng.random() < 0.3, force_kind=fk)
+            p["space"] = full_space(rng, finite=rng.random() < 0.3, force_kind=fk, style=style)
             p["shuffle"] = rng.random() < 0.85
         else:
             p["population_size"] = rng.randint(3, 8)
@@ -1076,6 +1119,9 @@ def expand_b(spec):
     if sc == "vt_modelfree":
         p["n_hist"] = len(DOMAIN_KINDS)  # every domain kind forced once, every scheduler kind at least once
         p["base"] = rng.randrange(2 ** 30)
+    elif sc == "vt_hashmatrix":
+        p["n_hist"] = 3 * len(HASH_KINDS)  # every model-free kind (incl. directly created searchers) three times
+        p["base"] = rng.randrange(2 ** 30)
     elif sc.startswith("vt_"):
         p["mode"] = rng.choice(["min", "max"])
         p["space"] = full_space(rng, ensure_infinite=True, with_const=rng.random() < 0.5,
@@ -1111,7 +1157,7 @@ def expand_b(spec):
         # finite domains whose members a table can list; quantized integers only for schedulers which obtain
         # every value through Domain.sample (encoded / perturbed values of an Integer domain are not multiples of q)
         col_kinds = ["choice", "randint", "finrange", "finrange_int", "logfinrange", "logfinrange_int", "lograndint",
-                     "ordinal_equal", "ordinal_nn", "logordinal"]
+                     "ordinal_equal", "ordinal_nn", "logordinal", "choice_dup_str", "choice_dup_int", "ordinal_equal_dup"]
         cols = [domain_desc(rng, rng.choice(col_kinds), small=True) for _ in range(ncol)]
         if sched in ("fifo_random", "hb", "sync_hb", "rea"):
             cols[rng.randrange(ncol)] = domain_desc(rng, rng.choice(["qrandint", "qlograndint"]), small=True)
@@ -1253,18 +1299,45 @@ def child_vt_gp(p, noise, trace, meta):
         trace.append(["vtuner_stopped", repr(vt.raised)[:300]])
 
 
+HASH_KINDS = KINDS_A + ["searcher_random", "searcher_grid"]
+
+
 def modelfree_spec(p, j):
-    """Engine-A spec of the j-th history of a vt_modelfree batch (every domain kind is forced in turn)."""
+    """Spec of the j-th history of a batch child. vt_modelfree: engine-A kinds, every domain kind forced in turn.
+    vt_hashmatrix: every model-free kind incl. directly created RandomSearcher / GridSearcher, spaces made mostly of
+    (string-valued) categoricals with duplicated values forced: round 0 a choice with duplicated strings (grid:
+    shuffle_config False), round 1 an ordinal and a choice with duplicates (grid: shuffle_config True), round 2 one of
+    the other unusual categoricals."""
+    if p["scenario"] == "vt_hashmatrix":
+        kind = HASH_KINDS[j % len(HASH_KINDS)]
+        r = (j // len(HASH_KINDS)) % 3
+        force = [["choice_dup_str"], ["ordinal_equal_dup", "choice_dup_str"],
+                 [UNUSUAL_KINDS[(p["base"] + j) % len(UNUSUAL_KINDS)]]][r]
+        sp = _with_seed({"kind": kind, "seed": p["base"] + 211 * j, "force_kind": force, "space_style": "categorical"}, j + r)
+        if kind in ("fifo_grid", "searcher_grid") and r < 2:
+            sp["shuffle"] = bool(r)
+        return sp
     return _with_seed({"kind": KINDS_A[(p["base"] + j) % len(KINDS_A)], "seed": p["base"] + 101 * j,
                        "force_kind": DOMAIN_KINDS[(p["base"] + j) % len(DOMAIN_KINDS)]}, j)
+
+
+def expand_any(spec):
+    """expand_a, also for the directly created searchers (parameters of the corresponding FIFO kind)."""
+    kind = spec["kind"]
+    if kind.startswith("searcher_"):
+        p = expand_a(dict(spec, kind={"searcher_random": "fifo_random", "searcher_grid": "fifo_grid"}[kind]))
+        p["kind"] = kind
+        return p
+    return expand_a(spec)
 
 
 def child_vt_modelfree(p, noise, trace, meta):
     total = 0
     for j in range(p["n_hist"]):
-        kind = KINDS_A[(p["base"] + j) % len(KINDS_A)]
-        q = expand_a(modelfree_spec(p, j))
-        q["max_events"] = min(q["max_events"], 120)
+        sp = modelfree_spec(p, j)
+        kind = sp["kind"]
+        q = expand_any(sp)
+        q["max_events"] = min(q["max_events"], 120 if p["scenario"] == "vt_modelfree" else 70)
         tk = new_time_keeper() if _needs_time_keeper(q) else None
         trace.append(["history", j, kind])
         try:
@@ -1689,7 +1762,7 @@ def child_main(argv):
         try:
             if sc == "neighbours":
                 child_neighbours(spec, meta)
-            elif sc == "vt_modelfree":
+            elif sc in BATCH_SCEN:
                 child_vt_modelfree(p, noise, trace, meta)
             elif sc.startswith("vt_"):
                 child_vt_gp(p, noise, trace, meta)
@@ -1816,8 +1889,9 @@ def run_engine_b(spec, o):
             diff = (hs, pre, d)
     o.count("B:hashseeds:" + sc, len({c[0] for c in children}))
     pb = expand_b(spec)
-    if sc == "vt_modelfree":
-        descs = [expand_a(modelfree_spec(pb, j))["space"] for j in range(pb["n_hist"])]
+    hist = [expand_any(modelfree_spec(pb, j)) for j in range(pb["n_hist"])] if sc in BATCH_SCEN else []
+    if sc in BATCH_SCEN:
+        descs = [q["space"] for q in hist]
     elif sc.startswith("vt_"):
         descs = [pb["space"]]
     else:
@@ -1825,15 +1899,24 @@ def run_engine_b(spec, o):
     for d_ in descs:
         for dk in space_kinds(d_):
             o.count("domain_kind_in_child_spaces:" + dk)
+        if any(dk in DUP_KINDS for dk in space_kinds(d_)):
+            o.count("spaces_with_duplicated_categories")
     if any(dk in QUANTIZED_KINDS for d_ in descs for dk in space_kinds(d_)):
         o.count("B:cases_with_quantized_domain")
-    if sc == "vt_modelfree":
-        o.count("B:fresh_process_histories_with_random_seed_0",
-                sum(1 for j in range(pb["n_hist"]) if expand_a(modelfree_spec(pb, j))["sched_seed"] == 0))
+    for q in hist:
+        o.count("fresh_process_hash_twins:" + q["kind"])
+        dup_str = any(d_[0] in ("choice", "ordinal") and len(set(d_[1])) < len(d_[1]) and isinstance(d_[1][0], str)
+                      for d_ in q["space"].values())
+        if dup_str:
+            o.count("fresh_process_hash_twins_with_duplicated_string_categories:" + q["kind"])
+            if q["kind"] in ("fifo_grid", "searcher_grid"):
+                o.count("fresh_process_grid_twins_with_duplicated_string_categories:shuffle_" + str(bool(q["shuffle"])).lower())
+    if sc in BATCH_SCEN:
+        o.count("B:fresh_process_histories_with_random_seed_0", sum(1 for q in hist if q["sched_seed"] == 0))
     elif pb["sched_seed"] == 0:
         o.count("B:fresh_process_cases_with_random_seed_0:" + ("sim" if sc.startswith("sim_") else "vt_gp"))
     meta = ref[2]["meta"]
-    o.count("B:gp_model_based_suggestions", meta.get("gp_model_based_suggestions", 0) if sc not in ("vt_modelfree",) else 0)
+    o.count("B:gp_model_based_suggestions", meta.get("gp_model_based_suggestions", 0) if sc not in BATCH_SCEN else 0)
     if len({c[2]["meta"].get("hash_probe") for c in children}) > 1:
         o.count("B:cases_with_distinct_string_hashes")
     if sc.startswith("sim_") and meta.get("stored_rows") != meta.get("rows"):
@@ -1846,8 +1929,14 @@ def run_engine_b(spec, o):
             out = spawn_child(spec, ref[0], pre)
             if "events" in out:
                 cause = "global_rng_state" if compare_children(ref[2], out) is not None else "hash_randomisation"
+        hist_kind = ""
+        if sc in BATCH_SCEN:  # which history of the batch diverged first
+            for e in reversed(ref[2]["events"][: detail.get("index", 0) + 1]):
+                if e.startswith('["history"'):
+                    hist_kind = ":" + json.loads(e)[2]
+                    break
         o.violate("fresh_process_twins_identical" if not sc.startswith("sim_") else "result_tables_identical",
-                  f"B:{sc}:{what}:first={et}:{cause}",
+                  f"B:{sc}{hist_kind}:{what}:first={et}:{cause}",
                   {"hashseed_ref": ref[0], "hashseed_other": hs, "detail": detail,
                    "params": {k: v for k, v in expand_b(spec).items() if k not in ("space",)}})
         for e in ref[2]["events"][max(0, detail.get("index", 0) - 20): detail.get("index", 0) + 1]:
